@@ -33,7 +33,7 @@ ASSUMPTIONS = ["payload kinds match the level (a Fiber is never written into a l
 
 @st.composite
 def cases(draw, max_steps=25):
-    spec = draw(gen.tree_specs(max_depth=3, max_shape=6, defaults=(0, 0, 0, 2)))
+    spec = draw(gen.tree_specs(max_depth=3, max_shape=6, defaults=(0, 0, 0, 2), auth="any"))
     hows = ["ref", "fiber", "uncompressed", "yaml", "deepcopy"]
     if len(spec["shape"]) <= 2:
         # an unowned fiber only knows the default of the next level: missing paths can be created
